@@ -58,8 +58,15 @@ impl Scenario for AggSc {
         if class == "agg-very-long" {
             // beyond every block size a memory-bounded implementation would plausibly pick (64 MiB of prepared terms is
             // ~3400): 2^k + 1 entries
-            let sizes: &[i64] = if tier == Tier::Thorough { &[2049, 4097, 8193, 16385] } else { &[4097] };
+            // ... and the sizes at which the list, or the list plus the closing term, fills a whole number of blocks of
+            // 2^k bytes of PREPARED pairing terms (a prepared G2 point is 68 * 6 * 48 = 19584 bytes in both back ends:
+            // 16 MiB = 856 terms, 32 MiB = 1713, 64 MiB = 3426, 128 MiB = 6853)
+            let sizes: &[i64] = if tier == Tier::Thorough { &[2049, 4097, 8193, 16385, 855, 856, 1712, 1713, 3425, 3426, 6852, 6853, 5138, 5139] } else { &[4097, 1712, 1713, 3425, 3426, 855, 856] };
             p.set("n", sizes[(index / 2) as usize % sizes.len()]);
+            // beyond the list: ORDINARY sizes (no power-of-two shape)
+            if (index / 2) as usize >= sizes.len() {
+                p.set("n", x.range(2050, 6000) as i64);
+            }
             p.set("scheme", [2i64, 0, 1][(index / 2 / sizes.len() as u64) as usize % 3]);
         }
         if class == "mixed-blocks" {
@@ -247,6 +254,27 @@ fn run_agg(plan: &Plan, lib: &dyn Lib, rec: &mut Rec) {
         rec.expect("C06", "decision-equals-reference", tout.is_ok() == exp, || {
             format!("{} via-trait-iterator-kind-{} scheme={} g={} | n={} repeated_message={}: the scheme trait's aggregate_verify says {}, reference says {}", label, kind[0], sch, g.name(), list.len(), repeated, tout.kind(), exp)
         });
+        // a source that is NOT fused (a paged reader, a channel's try_iter): the list ends at its first None. Kind 6 yields the
+        // whole list, None, and — if asked again — the whole list once more: the decision is that of the list. Kind 5 yields
+        // the first half, None, then the second half: the decision is that of the FIRST HALF (for this aggregate: refused,
+        // unless the reference accepts the half)
+        if list.len() >= 2 && list.len() <= 24 {
+            let k6 = [6u8];
+            targs[0] = &k6;
+            let o6 = rec.call(lib, g, Op::AggVerifyTrait, &targs);
+            rec.expect("C06", "decision-equals-reference", o6.is_ok() == exp, || format!("{} via-unfused-iterator(all, None, all again) scheme={} g={} | n={}: the scheme trait says {}, the reference says {} for the list up to the first None", label, sch, g.name(), list.len(), o6.kind(), exp));
+            let half = &list[..list.len() / 2];
+            let exp_half = match (to_pairs(half), &agg_pt) {
+                (Some(p), Some(a)) if half.len() >= 1 => b.aggregate_verify(Scheme::from_u8(scheme), &p, a),
+                _ => false,
+            };
+            let k5 = [5u8];
+            targs[0] = &k5;
+            let o5 = rec.call(lib, g, Op::AggVerifyTrait, &targs);
+            if !(half.len() < 2 && o5.is_ok() == false) {
+                rec.expect("C06", "decision-equals-reference", o5.is_ok() == exp_half, || format!("{} via-unfused-iterator(first half, None, second half) scheme={} g={} | n={}: the scheme trait says {}, the reference says {} for the {} entries before the first None", label, sch, g.name(), list.len(), o5.kind(), exp_half, half.len()));
+            }
+        }
         if let Some(m) = must {
             rec.expect("C06", if m { "exact-list-verifies" } else { "perturbed-list-rejected" }, out.is_ok() == m, || {
                 format!("{} scheme={} g={} | n={} repeated_message={}: expected {} but library says {}", label, sch, g.name(), list.len(), repeated, if m { "accept" } else { "reject" }, out.kind())
@@ -355,6 +383,17 @@ fn run_agg(plan: &Plan, lib: &dyn Lib, rec: &mut Rec) {
         let args: Vec<&[u8]> = (0..m).map(|i| if i == p { foreign.as_slice() } else { ss[arrived_idx[i]].sig.as_slice() }).collect();
         let o = rec.call(lib, g, Op::Aggregate, &args);
         rec.expect("C06", "mixed-schemes-refused", !o.is_ok(), || format!("mixed position {} of {} | a {} signature among {} signatures was aggregated", p, m, scheme_name(other_scheme), sch));
+        // label and point changed together: the foreign label on the neutral element, and on the honest entry's own point
+        let mut neutral = vec![0u8; 1 + g.sig_len()];
+        neutral[0] = other_scheme;
+        neutral[1] = 0xc0;
+        let mut relabelled = ss[arrived_idx[p]].sig.clone();
+        relabelled[0] = other_scheme;
+        for (what, entry) in [("the neutral element", &neutral), ("the honest entry's own point", &relabelled)] {
+            let args: Vec<&[u8]> = (0..m).map(|i| if i == p { entry.as_slice() } else { ss[arrived_idx[i]].sig.as_slice() }).collect();
+            let o = rec.call(lib, g, Op::Aggregate, &args);
+            rec.expect("C06", "mixed-schemes-refused", !o.is_ok(), || format!("mixed position {} of {} | an entry labelled {} carrying {} among {} signatures was aggregated", p, m, scheme_name(other_scheme), what, sch));
+        }
     }
     // aligned runs of two schemes
     if m >= 4 {
@@ -521,6 +560,18 @@ fn run_multi(plan: &Plan, lib: &dyn Lib, rec: &mut Rec) {
             let args: Vec<&[u8]> = (0..m).map(|i| if i == p { foreign.as_slice() } else { ss[arrived[i]].sig.as_slice() }).collect();
             let o = rec.call(lib, g, Op::MultiSig, &args);
             rec.expect("C07", "mixed-schemes-refused", !o.is_ok(), || format!("mixed position {} of {} | a {} signature among {} signatures was accumulated", p, m, scheme_name(foreign_scheme), sch));
+            // label and point changed TOGETHER: the foreign label on the neutral element ("an empty slot"), and on the very
+            // point the honest entry carries
+            let mut neutral = vec![0u8; 1 + g.sig_len()];
+            neutral[0] = foreign_scheme;
+            neutral[1] = 0xc0;
+            let mut relabelled = ss[arrived[p]].sig.clone();
+            relabelled[0] = foreign_scheme;
+            for (what, entry) in [("the neutral element", &neutral), ("the honest entry's own point", &relabelled)] {
+                let args: Vec<&[u8]> = (0..m).map(|i| if i == p { entry.as_slice() } else { ss[arrived[i]].sig.as_slice() }).collect();
+                let o = rec.call(lib, g, Op::MultiSig, &args);
+                rec.expect("C07", "mixed-schemes-refused", !o.is_ok(), || format!("mixed position {} of {} | an entry labelled {} carrying {} among {} signatures was accumulated", p, m, scheme_name(foreign_scheme), what, sch));
+            }
         }
     }
     if m >= 4 {
@@ -532,6 +583,29 @@ fn run_multi(plan: &Plan, lib: &dyn Lib, rec: &mut Rec) {
         let args: Vec<&[u8]> = owned.iter().map(|v| v.as_slice()).collect();
         let o = rec.call(lib, g, Op::MultiSig, &args);
         rec.expect("C07", "mixed-schemes-refused", !o.is_ok(), || "mixed two-and-two | two signatures of one scheme followed by two of another were accumulated".to_string());
+    }
+    // a caller's container that does not hand out the same list twice (its as_ref() alternates between two views): whatever
+    // the constructor returns is what it returns for ONE of the views — never a mixture (checks on one, sum over the other)
+    if m >= 2 {
+        let foreign = rec.call(lib, g, Op::Sign, &[&ss[arrived[0]].sk, &[1u8], &msg]).first().map(|v| v.to_vec()).unwrap_or_default();
+        let foreign2 = rec.call(lib, g, Op::Sign, &[&ss[arrived[0]].sk, &[other_scheme], &msg]).first().map(|v| v.to_vec()).unwrap_or_default();
+        let good: Vec<&[u8]> = (0..m).map(|i| ss[arrived[i]].sig.as_slice()).collect();
+        let views: [Vec<&[u8]>; 3] = [vec![foreign.as_slice(), good[0]], vec![good[0], foreign2.as_slice(), good[1]], vec![good[0]]];
+        for (vi, second) in views.iter().enumerate() {
+            for order in 0..2 {
+                let (v1, v2) = if order == 0 { (&good, second) } else { (second, &good) };
+                let r1 = rec.call(lib, g, Op::MultiSig, v1);
+                let r2 = rec.call(lib, g, Op::MultiSig, v2);
+                let n1 = u64b(v1.len() as u64);
+                let mut args: Vec<&[u8]> = vec![&[0u8], &n1];
+                args.extend(v1.iter().copied());
+                args.extend(v2.iter().copied());
+                let got = rec.call(lib, g, Op::FromFickleList, &args);
+                let same = |a: &simtypes::Out, b: &simtypes::Out| (a.is_ok() && a.first() == b.first()) || (!a.is_ok() && !b.is_ok());
+                rec.fault("caller-container-changes-between-reads");
+                rec.expect("C07", "mixed-schemes-refused", same(&got, &r1) || same(&got, &r2), || format!("fickle-container view {} order {} scheme={} g={} | from_signatures returned {} — neither what it returns for the first view ({}) nor for the second ({})", vi, order, sch, g.name(), got.kind(), r1.kind(), r2.kind()));
+            }
+        }
     }
     let one = rec.call(lib, g, Op::MultiSig, &[&ss[0].sig]);
     rec.expect("C07", "fewer-than-two-refused", !one.is_ok(), || "count one | accumulation of a single signature accepted".to_string());
